@@ -823,9 +823,7 @@ class C02(Check):
         # in one order only) for every order of the same expressions
         R.checked += 1
         if len(set(seen.values())) > 1:
-            feats = sorted(A.REX_ALPHABET[i][2] for i in sub)
-            R.viol('rex-order-dependent:%s' % '+'.join(
-                       f.split(',')[0].split(' (')[0] for f in feats)[:80],
+            R.viol('rex-order-dependent:%d-expressions' % len(sub),
                    'rex-list-order-not-significant',
                    {'column': col, 'verdict_by_order': [
                        [list(k), ('raised' if v is None else v)]
